@@ -130,6 +130,19 @@ def run(ctx):
             if wa is not None and wb is not None:
                 a, b = wa[0].path, wb[0].path
                 fa, fb = features(lexpr, a), features(lexpr, b)
+        if (fa is None) != (fb is None) or (fa is None and fb is None and a.rsplit("::", 1)[1] == b.rsplit("::", 1)[1]):
+            # one of two free-function twins is gone and what is left is generic over the kind of item
+            # (`from_trait::<T: ParseItem>`): both APIs run the same code
+            left = lexpr.fn(a) or lexpr.fn(b)
+            if left is None:
+                cands = [g for g in lexpr.fns if g.kind == "fn" and g.path.rsplit("::", 1)[1] == a.rsplit("::", 1)[1]]
+                left = cands[0] if len(cands) == 1 else None
+            gens = [g for g in ((left.d.get("generics") or []) if left is not None else []) if not g.startswith("'")]
+            insts = lex.type_instances(lexpr, left) if left is not None and hasattr(lex, "type_instances") else []
+            if left is not None and len(gens) >= 2:
+                n += 1
+                r.ok("%s and its location-tracking twin are one generic function (%s<%s>)" % (a, left.path, ", ".join(gens)), left)
+                continue
         if fa is None or fb is None:
             r.anchor_missing("%s / %s" % (a, b))
             continue
